@@ -290,6 +290,11 @@ def gen_scenario(seed, opts):
             req = set(model(inv, files)["requested"])
         if req & seen:
             continue
+        # nor is a requested output ever one of the input files (of this or of another command): `-c -x assembler ./u.o` would
+        # overwrite what it reads, and everybody else who reads it
+        all_in = set(os.path.normpath(n) for n in files)
+        if any(os.path.normpath(o) in all_in for o in req):
+            continue
         seen |= req
         kept.append(inv)
     invs = kept
@@ -298,7 +303,7 @@ def gen_scenario(seed, opts):
     for i, inv in enumerate(invs):
         m = model(inv, files)
         for o in m["requested"]:
-            if r.below(3) == 0 and not o.startswith(("/", "outdir", "nodir")) and "/" not in o and o not in files:
+            if r.below(3) == 0 and not o.startswith(("/", "outdir", "nodir")) and "/" not in o and os.path.normpath(o) not in set(os.path.normpath(n) for n in files):
                 pre[o] = "OLD CONTENT of %s\n" % o
     # faults: explicit ops attached to a named event of a named process of a named invocation
     if not fault_free:
